@@ -224,10 +224,13 @@ def _run(case, out, rig):
             return fail("login_attempt_without_prologue", {"step": step, "head": b[:8].hex()})
         if b.count(b"WA\x04\x00") != 1:
             return fail("login_attempts_per_connection", {"step": step, "prologues": b.count(b"WA\x04\x00")})
-        bad = corrupt.pop(0) if corrupt else False
-        trailing = bad == 2 and bad is not True
-        bad = bool(bad)
-        rig.server.corrupt_hello = bad
+        raw = corrupt.pop(0) if corrupt else False
+        trailing = raw == 2 and raw is not True
+        bad = bool(raw)
+        # a string names another way in which the reply is not the authentic one (kit/noise_server._damage)
+        rig.server.corrupt_hello = raw if isinstance(raw, str) else bad
+        if isinstance(raw, str):
+            out.label("handshake_reply_malformed")
         try:
             rig.server.feed(b)
         except TR.ProtocolViolation as e:
@@ -653,7 +656,7 @@ def case_strategy(ops=None):
                 "redundant_down": draw(st.booleans()),
                 "late": draw(st.lists(st.booleans(), min_size=0, max_size=6)),
                 "fresh_keys": draw(st.sampled_from([False, False, True])),
-                "corrupt": draw(st.lists(st.sampled_from([False, False, False, True, 2]), min_size=0, max_size=5)),
+                "corrupt": draw(st.lists(st.sampled_from([False, False, False, False, False, False, True, 2, "ephemeral_short", "no_server_hello", "payload_short", "static_flip"]), min_size=0, max_size=5)),
                 "choices": draw(st.lists(st.integers(0, 5), min_size=n, max_size=n)),
                 "preempt": draw(st.lists(st.tuples(st.integers(0, 1500), st.integers(0, 3)).map(list), min_size=0, max_size=3)) if n == 0 else []}
     return build_()
@@ -676,6 +679,7 @@ def _enum_basic():
                           ["connect"], ["success"], ["tick"], ["pong", 0], ["stale_pong", 1], ["tick"]])
     yield dict(base, fresh_keys=True, ops=[["connect"], ["success", 0], ["success", 0], ["tick"], ["pong", 0], ["peer_close", 0], ["connect"], ["success", 0]])
     yield dict(base, fresh_keys=True, ops=[["connect"], ["success", 2], ["peer_close", 0], ["connect"], ["success", 0], ["success", 0], ["tick"]])
+    yield dict(base, corrupt=["ephemeral_short", "no_server_hello", False], ops=[["connect"], ["loop"], ["connect"], ["loop"], ["connect"], ["success"], ["send", 1], ["loop"]])
     yield dict(base, corrupt=[2, False], ops=[["connect"], ["loop"], ["connect"], ["success"], ["send", 1], ["loop"]])
     yield dict(base, corrupt=[True, False, True], ops=[["connect"], ["loop"], ["connect"], ["success"], ["stream_error", "ack", False, 0], ["loop"], ["connect"],
                                                         ["success"]])
